@@ -142,6 +142,10 @@ func (cb *CanonicalBlock) UnmarshalCbor(r io.Reader) error {
 		cb.CRCType = CRCType(crcT)
 	}
 
+	if hasCrcField := blockLen == 6; hasCrcField != cb.HasCRC() {
+		return fmt.Errorf("array of %d elements contradicts CRC type %v", blockLen, cb.CRCType)
+	}
+
 	if b, err := GetExtensionBlockManager().ReadBlock(blockType, r); err != nil {
 		return fmt.Errorf("unmarshalling block type %d failed: %v", blockType, err)
 	} else {
